@@ -150,7 +150,7 @@ SUITES = {
     'C08': [('mutating_uses', _mut, 'the whole-program consequence; the typer',
              'about 110 programs: 7 kinds of target x (assignment, address handed to a writing callee in 15 expression/statement contexts incl. index expressions); the same call WITHOUT & in each context (E513); whole-aggregate copies (E531-E533); local slices; elements/members of constants and of by-value word parameters; & missing on pointer arguments')],
     'C09': [('literal_range_lints', _literals, 'alpha parser (minus folding, signed/bit split), typer literal typing',
-             '10 integer types x ~14 boundary values x up to 5 spellings x (typed by declaration, typed by suffix); 3 literals beyond 128 bits'),
+             '10 integer types x ~14 boundary values x up to 5 spellings x (typed by declaration, typed by suffix); 60 literals just beyond and far beyond 128 bits (every last digit of 2^128+0..9, with and without underscores and suffix), always included'),
             ('invalid_lexemes_rejected', _lexd_invalid, 'which escapes, quotes and suffixes the lexers reject',
              '48 inputs with one invalid lexeme (control characters, bad or unclosed escapes, unclosed quotes, bad digits, keyword and misspelt suffixes, stray symbols): rejected by both lexers'),
             ('alpha_lexer_tokens', _lexa, 'completeness of literal acceptance in the alpha lexer',
